@@ -29,16 +29,24 @@ Fixpoint paint (ls : list line) (idx total W H real : N) : list termop * N :=
       else
         let real' := if is_bar l then real + h else real in
         let pre := if idx =? 0 then [] else [TLine []] in
-        let fill := if idx + 1 =? total then [TStr (spaces (h * W - lwidth l))] else [] in
+        let fill := if (idx + 1 =? total) || ((idx =? 0) && (lwidth l =? 0))
+                    then [TStr (spaces (h * W - lwidth l))] else [] in
         let '(ops, rf) := paint r (idx + 1) total W H real' in
         (pre ++ TStr (lt l) :: fill ++ ops, rf)
   end.
 
-Definition draw_to_term (ls : list line) (n : N) (al : alignment) (W H : N) : list termop * N :=
+(* [below]: DrawState::cursor_below (fix 'println/clear after an empty frame'): the previous draw
+   erased rows and drew nothing, the cursor is on the blank row below the remaining output *)
+Definition draw_to_term (ls : list line) (n : N) (al : alignment) (below : bool) (W H : N)
+  : list termop * N * bool :=
   let full := visual_line_count ls W in
   let shift := match al with
                | Bottom => if full <? n then n - full else 0
                | Top => 0
                end in
   let '(pops, real) := paint ls 0 (N.of_nat (length ls)) W H 0 in
-  (clear_ops n ++ repeat (TLine []) (N.to_nat shift) ++ pops ++ [TFlush], real + shift).
+  let below' := if negb (shift =? 0) || negb (match ls with [] => true | _ => false end) then false
+                else if negb (n =? 0) then true else below in
+  ((if below && (0 <? n) then [TUp 1] else [])
+     ++ clear_ops n ++ repeat (TLine []) (N.to_nat shift) ++ pops ++ [TFlush],
+   real + shift, below').
